@@ -63,11 +63,14 @@ SHAPES = {
     "SC":  ([(8, 0), (16, 0)], 0b10, "8-bit slot, 16-bit constant index (ldc)"),
 }
 # the doarg call sites of read_instruction: shape -> [(find, replace)] one-line mutants of the encoder
+FIXED_S = "fixed: /repo 0ccef6e - read_instruction range-checked the 24-bit slot of JINT_S instructions as 2 bytes ((ret 65536) printed by disasm, rejected by asm)"
+M_S16 = M("fix-reverted-slot-2-bytes", "instr |= doarg(a, JANET_OAT_SLOT, 1, 3, 0, argt[1]);\n            break;\n        }\n        case JINT_L:",
+          "instr |= doarg(a, JANET_OAT_SLOT, 1, 2, 0, argt[1]);\n            break;\n        }\n        case JINT_L:", "accepts every instruction|gives back the word")
 ENC_MUT = {
     "0": [M("arity-check-dropped", "            if (janet_tuple_length(argt) != 1)\n                janet_asm_error(a, \"expected 0 arguments: (op)\");",
             "            if (janet_tuple_length(argt) > 5)\n                janet_asm_error(a, \"expected 0 arguments: (op)\");", "exactly the operands")],
-    "S": [M("slot-at-wrong-byte", "instr |= doarg(a, JANET_OAT_SLOT, 1, 2, 0, argt[1]);\n            break;\n        }\n        case JINT_L:",
-            "instr |= doarg(a, JANET_OAT_SLOT, 2, 2, 0, argt[1]);\n            break;\n        }\n        case JINT_L:", "every operand at the position")],
+    "S": [M_S16, M("slot-at-wrong-byte", "instr |= doarg(a, JANET_OAT_SLOT, 1, 3, 0, argt[1]);\n            break;\n        }\n        case JINT_L:",
+            "instr |= doarg(a, JANET_OAT_SLOT, 2, 3, 0, argt[1]);\n            break;\n        }\n        case JINT_L:", "every operand at the position")],
     "L": [M("label-unsigned", "instr |= doarg(a, JANET_OAT_LABEL, 1, 3, 1, argt[1]);", "instr |= doarg(a, JANET_OAT_LABEL, 1, 3, 0, argt[1]);", "outside the range|gives back the operands|position"),
           M("label-32-bits", "instr |= doarg(a, JANET_OAT_LABEL, 1, 3, 1, argt[1]);", "instr |= doarg(a, JANET_OAT_LABEL, 1, 4, 1, argt[1]);", "outside the range|shift")],
     "SS": [M("second-slot-one-byte-too-wide", "instr |= doarg(a, JANET_OAT_SLOT, 2, 2, 0, argt[2]);", "instr |= doarg(a, JANET_OAT_SLOT, 2, 3, 0, argt[2]);", "outside the range")],
@@ -151,7 +154,7 @@ for name, (ops, slots, text) in SHAPES.items():
                    "each an integer inside the range of its field (out-of-range, fractional, NaN raise instead of being truncated into a neighbouring field); "
                    "the word is the opcode with each operand at the position/width/signedness the interpreter reads; slotcount covers the slot operands; "
                    "janet_asm_decode_instruction maps the word back to the same mnemonic and operands" % (name, text),
-                   ["read_instruction", "doarg", "doarg_1"], ENC_MUT[name] + ([M_DOARG_MAX] if name == "SSS" else []) + ([M_DOARG_NOMIN] if name == "SI" else []),
+                   ["read_instruction", "doarg", "doarg_1"], [m for m in ENC_MUT[name] if m is not M_S16] + ([M_DOARG_MAX] if name == "SSS" else []) + ([M_DOARG_NOMIN] if name == "SI" else []),
                    unwind=uw))
     add(codec_unit("asm.codec.dec.%s" % low, "h_dec", name,
                    "janet_asm_decode_instruction, shape JINT_%s - %s: every word with an opcode of this shape is printed as (mnemonic operand...) "
@@ -159,17 +162,14 @@ for name, (ops, slots, text) in SHAPES.items():
                    ["janet_asm_decode_instruction", "janet_asm_reverse_lookup"], DEC_MUT[name] + ([M_BRK] if name == "0" else [])))
     RT_CL = ("shape JINT_%s - %s: read_instruction accepts the tuple janet_asm_decode_instruction prints for ANY word of the shape (any nesting depth of "
              "the function being assembled) and returns the same word (breakpoint flag cleared)" % (name, text))
-    rt_mut = [dict(ENC_MUT[name][0], expect="accepts every instruction|gives back the word")] if name != "0" else [DEC_MUT["0"][0]]
+    rt_mut = [dict([m for m in ENC_MUT[name] if m is not M_S16][0], expect="accepts every instruction|gives back the word")] if name != "0" else [DEC_MUT["0"][0]]
     if name in RT_MUT:
         rt_mut = [RT_MUT[name]]
     if name == "S":
-        add(codec_unit("asm.codec.rt.s", "h_rt", name, RT_CL, ["read_instruction", "doarg", "doarg_1", "janet_asm_decode_instruction"], rt_mut),
-            failing="FINDING asm-S-slot-16-bit: the single slot operand of JINT_S instructions is a 24-bit field (vm.c D = *pc >> 8, janet.h 'Slot(3)', "
-                    "janet_verify allows slots up to 0xFFFFFF, the disassembler prints 24 bits) but read_instruction range-checks it as 2 bytes: a verified "
-                    "word like (push 65536) / (ret 70000) is printed by disasm and rejected by asm ('instruction argument 65536 is too large, must be 2 bytes'). "
-                    "Failing obligation ac_longjmp_stub.assertion.1 'the assembler accepts every instruction the disassembler prints'.")
-        add(codec_unit("asm.codec.rt.s.16bit", "h_rt", name, RT_CL + " - restricted to slot operands below 65536", ["read_instruction", "doarg", "doarg_1", "janet_asm_decode_instruction"],
-                       rt_mut, cls="bounded", bound="slot operand < 0x10000 (the full 24-bit field fails: disabled unit asm.codec.rt.s)", extra_def=["-DAC_RT_PRE=((w>>8)<0x10000u)"]))
+        u = codec_unit("asm.codec.rt.s", "h_rt", name, RT_CL, ["read_instruction", "doarg", "doarg_1", "janet_asm_decode_instruction"],
+                       [M_S16, dict(ENC_MUT["S"][1], expect=RT_EXP)])
+        u["fixed"] = FIXED_S
+        add(u)
     elif name == "SES":
         add(codec_unit("asm.codec.rt.ses", "h_rt", name, RT_CL, ["read_instruction", "doarg", "doarg_1", "janet_asm_decode_instruction"], rt_mut, unwind=uw),
             failing="FINDING asm-upvalue-needs-parents: read_instruction walks (environment index + 1) parents of the assembler for ldu/setu and raises "
@@ -301,7 +301,7 @@ M_HANDLER_DEF = M("error-result-keeps-definition", "        result.funcdef = NUL
 M_HANDLER_LEAK = M("tables-not-released-before-propagating", "        if (NULL != a.parent) {\n            janet_asm_deinit(&a);", "        if (NULL != a.parent) {", "released before an error is passed")
 
 
-def struct_unit(uid, secs, what, mutants, extra_def=None, bound_extra="", failing=None, tier="quick", timeout=900, unwind=17):
+def struct_unit(uid, secs, what, mutants, extra_def=None, bound_extra="", failing=None, tier="quick", timeout=900, unwind=17, fixed=None, extra=None):
     if uid not in ("asm.asm1.header", "asm.asm1.header.below-max", "asm.asm1.bytecode"):
         tier = "thorough"       # 60-170 s
     u = {"id": uid, "props": ["C10"], "tier": tier, "class": "bounded",
@@ -314,6 +314,12 @@ def struct_unit(uid, secs, what, mutants, extra_def=None, bound_extra="", failin
          "replace_calls": RC_STRUCT, "replace_calls2": ["janet_asm1__entry:janet_asm1"],
          "checks": CHECKS, "unwind": unwind, "unwinding_assertions": True, "timeout": timeout, "object_bits": 10,
          "assumes": A_STRUCT, "mutants": mutants}
+    if "one nesting level" in u["bound"] and not (extra_def and "-DAS_DEPTH_GUARD" in extra_def):
+        u["bound"] += "; the assembler has at most 2 assemblers above it (the depth guard: asm.asm1.depth-guard*)"
+    if fixed:
+        u["fixed"] = fixed
+    if extra:
+        u.update(extra)
     add(u, failing=failing)
 
 
@@ -353,21 +359,32 @@ struct_unit("asm.asm1.bytecode", [], "other fields are nil - :bytecode (labels, 
              M("bytecode-block-counts-tuples-minus-one", "        def->bytecode = janet_malloc(sizeof(uint32_t) * (size_t) blength);", "        def->bytecode = janet_malloc(sizeof(uint32_t) * (size_t) (blength - (blength > 0)));", "pointer|bounds|block of bytecode_length"),
              M("empty-tuple-mnemonic-read", "                if (janet_tuple_length(t) == 0) {\n                    op = 0;", "                if (janet_tuple_length(t) < 0) {\n                    op = 0;", "pointer|bounds|has a mnemonic"),
              M_VERIFY_IGNORED, M_LEAK_TABLES])
-struct_unit("asm.asm1.sourcemap", ["SOURCEMAP"], ":sourcemap is", [M_NO_VERIFY], failing=FIND_SM)
-struct_unit("asm.asm1.sourcemap.pairs", ["SOURCEMAP"], ":sourcemap is",
-            [M("sourcemap-length-check-dropped", "        janet_asm_assert(&a, count == def->bytecode_length, \"sourcemap must have the same length as the bytecode\");", "", "one entry per instruction|pointer|bounds"),
+struct_unit("asm.asm1.sourcemap", ["SOURCEMAP"], ":sourcemap is",
+            [M("fix-reverted-sourcemap-entry-length-unchecked", "            if (janet_tuple_length(tup) < 2) {\n                janet_asm_error(&a, \"expected tuple of 2 integers\");\n            }\n", "", "pointer|bounds"),
+             M("sourcemap-entry-length-off-by-one", "            if (janet_tuple_length(tup) < 2) {", "            if (janet_tuple_length(tup) < 1) {", "pointer|bounds"),
+             M("sourcemap-length-check-dropped", "        janet_asm_assert(&a, count == def->bytecode_length, \"sourcemap must have the same length as the bytecode\");", "", "one entry per instruction|pointer|bounds"),
              M("sourcemap-entry-type-check-dropped", "            JanetSourceMapping mapping;\n            if (!janet_checktype(entry, JANET_TUPLE)) {", "            JanetSourceMapping mapping;\n            if (0) {", "pointer|bounds")],
-            extra_def=["-DAS_TUPLE_MIN=2"], bound_extra="; entry tuples have at least 2 elements (shorter ones: disabled unit asm.asm1.sourcemap)")
-struct_unit("asm.asm1.symbolmap", ["SYMBOLMAP"], ":symbolmap is", [M_NO_VERIFY], failing=FIND_SYM)
-struct_unit("asm.asm1.symbolmap.quads", ["SYMBOLMAP"], ":symbolmap is",
-            [M("symbolmap-block-one-short", "        def->symbolmap = janet_malloc(sizeof(JanetSymbolMap) * (size_t)count);", "        def->symbolmap = janet_malloc(sizeof(JanetSymbolMap) * (size_t)(count - (count > 0)));", "pointer|bounds|block of symbolmap_length"),
+            fixed="fixed: /repo 3fa68a9 - " + FIND_SM)
+struct_unit("asm.asm1.symbolmap", ["SYMBOLMAP"], ":symbolmap is",
+            [M("fix-reverted-symbolmap-entry-length-unchecked", "            if (janet_tuple_length(tup) < 4) {\n                janet_asm_error(&a, \"expected tuple of 4 elements\");\n            }\n", "", "pointer|bounds"),
+             M("symbolmap-block-one-short", "        def->symbolmap = janet_malloc(sizeof(JanetSymbolMap) * (size_t)count);", "        def->symbolmap = janet_malloc(sizeof(JanetSymbolMap) * (size_t)(count - (count > 0)));", "pointer|bounds|block of symbolmap_length"),
              M("symbolmap-entry-type-check-dropped", "            JanetSymbolMap ss;\n            if (!janet_checktype(entry, JANET_TUPLE)) {", "            JanetSymbolMap ss;\n            if (0) {", "pointer|bounds")],
-            extra_def=["-DAS_TUPLE_MIN=4"], bound_extra="; entry tuples have at least 4 elements (shorter ones: disabled unit asm.asm1.symbolmap)")
+            fixed="fixed: /repo 3fa68a9 - " + FIND_SYM)
 struct_unit("asm.asm1.environments", ["ENVIRONMENTS"], ":environments is",
             [M("environments-block-one-short", "            def->environments = janet_realloc(def->environments, def->environments_length * sizeof(int32_t));", "            def->environments = janet_realloc(def->environments, (def->environments_length - 1) * sizeof(int32_t));", "pointer|bounds|block of environments_length"),
              M("environments-length-one-more", "        def->environments_length = count;\n        if (def->environments_length) {", "        def->environments_length = count + 1;\n        if (def->environments_length) {", "lengths of the description|block of environments_length|pointer|bounds")])
-struct_unit("asm.asm1.depth-guard", ["CLOSURES"], ":closures / :defs are", [M_NO_VERIFY], extra_def=["-DAS_DEPTH_GUARD"],
-            bound_extra="; the assembler is nested arbitrarily deep (every parent has a parent)", failing=FIND_DEPTH)
+struct_unit("asm.asm1.depth-guard", ["CLOSURES"], ":closures / :defs are",
+            [M("fix-reverted-no-depth-guard", "        janet_asm_assert(&a, depth < JANET_RECURSION_GUARD, \"recursed too deeply\");", "", "once the parent chain has"),
+             M("depth-guard-off-by-one", "        janet_asm_assert(&a, depth < JANET_RECURSION_GUARD, \"recursed too deeply\");", "        janet_asm_assert(&a, depth <= JANET_RECURSION_GUARD, \"recursed too deeply\");", "once the parent chain has"),
+             M("depth-counts-from-grandparent", "        for (JanetAssembler *p = parent; p != NULL; p = p->parent) depth++;", "        for (JanetAssembler *p = parent->parent; p != NULL; p = p->parent) depth++;", "once the parent chain has")],
+            extra_def=["-DAS_DEPTH_GUARD", "-DAS_DEPTH=1024"],
+            bound_extra="; the assembler has exactly JANET_RECURSION_GUARD (1024) assemblers above it: the description is refused before any nested definition is assembled",
+            fixed="fixed: /repo f4335f4 - " + FIND_DEPTH, extra={"unwind": None, "unwindset": "DEPTH"})
+struct_unit("asm.asm1.depth-guard.below", ["CLOSURES"], ":closures / :defs are",
+            [M("depth-guard-too-strict", "        janet_asm_assert(&a, depth < JANET_RECURSION_GUARD, \"recursed too deeply\");", "        janet_asm_assert(&a, depth < JANET_RECURSION_GUARD - 1, \"recursed too deeply\");", "REACH|nested")],
+            extra_def=["-DAS_DEPTH_GUARD", "-DAS_DEPTH=1023"],
+            bound_extra="; the assembler has exactly JANET_RECURSION_GUARD - 1 (1023) assemblers above it: nested definitions are still assembled (REACH: nested assembly raises / returns)",
+            extra={"unwind": None, "unwindset": "DEPTH"})
 
 
 # ------------------------------------------------------------------------------------------------------------------
@@ -387,20 +404,21 @@ def cfun_unit(uid, extra_def, failing=None, bound=None):
          "src": ["bytecode.c", "asm.c"], "link": ["wrap.c"], "link_keep": {"wrap.c": ["janet_wrap_function"]},
          "harness": ["asm_cfun.c"], "entry": "h_cfun_asm", "mode": "plain", "nanbox": False, "functions": ["cfun_asm", "janet_thunk"],
          "defines": ["-DVC_OWN_EXIT"] + extra_def,
-         "replace_calls": ["janet_asm:cf_asm_stub", "janet_gcalloc:cf_gcalloc_stub", "janet_panics:cf_panics_stub", "janet_cstring:cf_cstring_stub"],
+         "replace_calls": ["janet_asm:cf_asm_stub", "janet_gcalloc:cf_gcalloc_stub", "janet_panics:cf_panics_stub", "janet_panic:cf_panic_stub", "janet_cstring:cf_cstring_stub"],
          "checks": CHECKS, "unwind": 4, "unwinding_assertions": True, "timeout": 300,
          "assumes": ["janet_asm replaced by its contract (asm.asm1.*): ERROR without definition, or OK with a definition; environments_length >= 0 arbitrary "
                      "(janet_asm1 copies it from :environments, janet_verify does not constrain it)",
                      "janet_gcalloc returns a fresh block; janet_panics / janet_panicf do not return (catchable error); janet_cstring returns a string (stub)"],
          "mutants": [M("error-status-ignored", "    if (res.status != JANET_ASSEMBLE_OK) {\n        janet_panics", "    if (0) {\n        janet_panics", "pointer|function of the assembled"),
+                     M("fix-reverted-environments-reach-thunk", "    if (res.funcdef->environments_length != 0) {\n        janet_panic(", "    if (0) {\n        janet_panic(", "never taken down"),
                      M("null-message-raised", "        janet_panics(res.error ? res.error : janet_cstring(\"invalid assembly\"));", "        janet_panics(res.error);", "with a message")]}
     if bound:
         u["bound"] = bound
+    u["fixed"] = "fixed: /repo 116d89f - " + FIND_THUNK
     add(u, failing=failing)
 
 
-cfun_unit("asm.cfun.no-abort", [], failing=FIND_THUNK)
-cfun_unit("asm.cfun.no-abort.noenv", ["-DCF_NO_ENVIRONMENTS"], bound="definitions with environments_length == 0 (others: disabled unit asm.cfun.no-abort)")
+cfun_unit("asm.cfun.no-abort", [])
 
 
 # ------------------------------------------------------------------------------------------------------------------
@@ -416,7 +434,7 @@ A_DIS = [
     "definition under test: 0 <= min_arity <= arity <= max_arity, arity < INT32_MAX (what the compiler and the assembler produce; janet_verify does not check min/max arity), "
     "no breakpoint flag set in the bytecode (debugger state)",
     "instruction codec replaced by the contract proved in asm.codec.*: janet_asm_decode_instruction(w) yields a tuple that read_instruction maps back to w; the mnemonic lookup "
-    "(janet_strbinsearch) finds an entry (asm.optable). NOT covered by that contract on the pinned tree: JINT_S slots >= 65536 and ldu/setu outside nested functions (disabled units asm.codec.rt.s / .ses)",
+    "(janet_strbinsearch) finds an entry (asm.optable). NOT covered by that contract on the pinned tree: ldu/setu outside nested functions (disabled unit asm.codec.rt.ses)",
     "nested definitions by induction: janet_disasm of a nested definition is an opaque description and the nested janet_asm1 maps it back to an equal definition (represented by the same object)",
     "janet_verify accepts the reassembled definition (stub returns 0): it has equal fields; slotcount is recomputed from the operands (asm.codec.enc.*: covers every slot operand)",
     "tables / structs / arrays / tuples / keywords: recording stubs with exact block sizes (janet_table, janet_table_put, janet_table_to_struct, janet_struct_get, janet_array, "
